@@ -124,8 +124,22 @@ struct Barrier {
 struct Shared {
 	json_object *node;
 	std::atomic<int> destroyed{0};
+	std::atomic<int> pinned{0}; // the main thread holds references throughout: destruction now is a violation
 };
-static void shared_del(json_object *, void *ud) { ((Shared *)ud)->destroyed++; }
+static void shared_del(json_object *, void *ud)
+{
+	Shared *s = (Shared *)ud;
+	s->destroyed++;
+	if (s->pinned.load())
+	{
+		// stop at once, while the case being run is still the one that caused it (in the build without a sanitizer a
+		// freed node would only show up later, as heap corruption in some other case)
+		static const char msg[] = "PROPERTY-FAIL harness=C18 tag=destroyed-early a shared node was destroyed while the main thread still held more than 2^31 references to it\n";
+		ssize_t w = write(2, msg, sizeof msg - 1);
+		(void)w;
+		abort();
+	}
+}
 
 struct Prog {
 	bool cold_start = false; // the workers acquire their own reference concurrently from a count of exactly 1
@@ -422,6 +436,7 @@ static void run_refcount(Choices &c, Ctx &ctx)
 		json_object *bulk = nodes.back()->node;
 		for (uint32_t i = 0; i < (1u << 31) + 1000; i++)
 			json_object_get(bulk);
+		nodes.back()->pinned = 1;
 	}
 	Barrier b, b2;
 	b.n = p.nthreads + 1;
